@@ -104,6 +104,30 @@ func CheckDeterminism(run *core.Run, prog *load.Program) {
 							if !isCall || len(oc.Args) == 0 || ast.Unparen(oc.Args[0]) != ast.Expr(s) {
 								return true
 							}
+							// handed to an unexported moq helper that ranges over it looking for the first match of a
+							// predicate the callers pass
+							if ofn, isFn := typeutil.Callee(info, oc).(*types.Func); isFn && prog.IsMoqPkg(ofn.Pkg()) {
+								if d := prog.Decl(ofn.Origin()); d != nil && d.Body != nil {
+									cinfo := prog.Info(ofn.Pkg())
+									var p0 types.Object
+									if d.Type.Params != nil && len(d.Type.Params.List) > 0 && len(d.Type.Params.List[0].Names) > 0 {
+										p0 = cinfo.Defs[d.Type.Params.List[0].Names[0]]
+									}
+									ast.Inspect(d.Body, func(y ast.Node) bool {
+										rs, isR := y.(*ast.RangeStmt)
+										if !isR {
+											return true
+										}
+										if id, isID := ast.Unparen(rs.X).(*ast.Ident); isID && p0 != nil && cinfo.ObjectOf(id) == p0 {
+											// a one-variable range over an iterator: the variable is the element
+											if _, ok := firstMatchByPredicate(prog, cinfo, d, rs, ofn.Origin()); ok {
+												okSorted = true
+											}
+										}
+										return true
+									})
+								}
+							}
 							if ofn, isFn := typeutil.Callee(info, oc).(*types.Func); isFn && ofn.Pkg() != nil && ofn.Pkg().Path() == "slices" && callee.Name() != "All" {
 								switch ofn.Name() {
 								case "Sorted":
@@ -154,7 +178,7 @@ func CheckDeterminism(run *core.Run, prog *load.Program) {
 		})
 	})
 	run.Count("map_ranges", nRanges)
-	run.Floor("G-DET/map-range", 3)
+	run.Floor("G-DET/map-range", 1)
 	// package-level variables are never written after initialisation: fresh generator instances start equal
 	CheckNoGlobalWrites(run, prog, "G-DET/global-state")
 }
